@@ -170,8 +170,15 @@ func (c *Client) WaitClosed(timeout time.Duration) ([]*wire.Message, error) {
 // StartTLS sends a StartTLS extended request, expects a successful
 // ExtendedResponse and upgrades the connection.
 func (c *Client) StartTLS(cfg *tls.Config, msgID int64) error {
+	return c.StartTLSWithTrailer(cfg, msgID, nil)
+}
+
+// StartTLSWithTrailer is StartTLS by a client that puts further plaintext
+// bytes behind its StartTLS request in the same write (an injection attempt:
+// whatever arrives in plaintext must never be served inside the tunnel).
+func (c *Client) StartTLSWithTrailer(cfg *tls.Config, msgID int64, trailer []byte) error {
 	req := wire.Req{Kind: "extended", MsgID: msgID, ExtName: []byte(wire.OIDStartTLS)}
-	if err := c.Send(req.Encode()); err != nil {
+	if err := c.Send(append(req.Encode(), trailer...)); err != nil {
 		return err
 	}
 	m, err := c.Next(10 * time.Second)
